@@ -1,13 +1,98 @@
 /-
-  Driver.OpsC20 — protocol operations for property C20 (filled in by the C20 work package).
-  Contract: `handleC20 op` returns the parser for operation `op` or `none` if `op` is not one of
-  this property's operations.
+  Driver.OpsC20 — protocol operations for property C20 (JUnit report vs verdict).
+  Scenario syntax: see Driver.OpsC04.
+
+    junit floattab scenario
+        → hyp=… model=<exit>;<report> spec=<0|1> cls=<F5|-> skip=<0|1|-> xskip=<names|->
+    junitdir floattab optstrs(rtol) optstrs(atol) <ignMissingSrcFiles> <ignMissingRefFiles>
+             <k> { <filename> scenario } <names> <names> <names> <names>
+        → hyp=… model=<exit>;<report> spec=<0|1> cls=<F5|->
+    jchildren <status>           → model=<tag,tag…|->          (children added by _add_test_case)
+
+    report  := none | empty | suite { / suite }
+    suite   := <name>|<tests>,<failures>,<errors>,<skipped>|<case>;<case>…
+    case    := <name>:<kind>           kind = passed | failure | error | skipped
+    names   := <n> <str>…
 -/
-import Driver.Proto
-namespace Fc.Drv
+import Driver.OpsC04
+import FcModel.Junit
+import FcModel.Spec.C20
+namespace Fc.Drv.C20
+open Fc Fc.C04 Fc.Drv Fc.Drv.C04
+
+def showCase (c : TestCase) : String := s!"{escStr c.name}:{c.kind.name}"
+
+def showJSuite (j : JSuite) : String :=
+  s!"{escStr j.name}|{j.tests},{j.failures},{j.errors},{j.skipped}|{";".intercalate (j.cases.map showCase)}"
+
+def showReport : Option (List JSuite) → String
+  | none => "none"
+  | some [] => "empty"
+  | some js => "/".intercalate (js.map showJSuite)
+
+/-- finding class F5 on the model's own suites: no report although the run fails, or a suite that
+    fails by its own status while none of its test cases does -/
+def clsOf (e : ExitOutcome) (suites : Option (List Suite)) : String :=
+  match suites with
+  | none => if e != .exit 0 then "F5" else "-"
+  | some l => if l.any Spec.unbacked then "F5" else "-"
+
+def opJunit : P String := do
+  let tab ← pFloatTab
+  let s ← pScenario
+  if !tabCovers tab s.rtolToks s.atolToks then failure
+  let pf := tabFun tab
+  let r := fileReport pf s
+  let raw := fileMode pf s
+  let hyp := scenarioHyp pf s
+  let rep := r.2.map fun j => [j]
+  let spec := Spec.reportOk (r.1, rep)
+  let (skip, xskip) : String × String :=
+    match s.payload, r.2 with
+    | .single p, some j =>
+      if s.readRes == .ok && s.readRef == .ok && Spec.domainsEqual pf s p.dom then
+        let want := Spec.expectedSkipped s p
+        let got := Spec.skippedNames j
+        -- equal as multisets (names are duplicate-free inside hyp): mutual inclusion + equal length
+        let eq := want.length == got.length && want.all got.contains && got.all want.contains
+        (showBool eq, if want.isEmpty then "empty" else ",".intercalate (want.map escStr))
+      else ("-", "-")
+    | _, _ => ("-", "-")
+  pure s!"hyp={showBool hyp} model={showExit r.1};{showReport rep} spec={showBool spec} cls={clsOf r.1 (raw.2.map fun x => [x])} skip={skip} xskip={xskip}"
+
+def pDirFile : P DirFile := do
+  let fname ← pStr
+  let s ← pScenario
+  pure ⟨fname, s⟩
+
+def opJunitDir : P String := do
+  let tab ← pFloatTab
+  let rt ← pOptStrs; let at_ ← pOptStrs
+  let ims ← pBool; let imr ← pBool
+  let files ← pList pDirFile
+  let ms ← pList pStr; let mr ← pList pStr; let un ← pList pStr; let di ← pList pStr
+  if !tabCovers tab rt at_ then failure
+  -- every file scenario must carry the options of the run
+  if !(files.all fun f => f.scen.rtolToks == rt && f.scen.atolToks == at_) then failure
+  let pf := tabFun tab
+  let d : DirScenario := ⟨rt, at_, ims, imr, files, ms, mr, un, di⟩
+  let r := dirReport pf d
+  let hyp := files.all fun f => scenarioHyp pf f.scen
+  let suites : Option (List Suite) := r.2.map fun _ => (dirSuites pf d).map (·.2)
+  pure s!"hyp={showBool hyp} model={showExit r.1};{showReport r.2} spec={showBool (Spec.reportOk r)} cls={clsOf r.1 suites}"
+
+def opJChildren : P String := do
+  let st ← pTestStatus
+  let ch := junitChildren st
+  pure s!"hyp=1 model={if ch.isEmpty then "-" else ",".intercalate ch}"
 
 def handleC20 (op : String) : Option (P String) :=
   match op with
+  | "junit" => some opJunit
+  | "junitdir" => some opJunitDir
+  | "jchildren" => some opJChildren
   | _ => none
 
-end Fc.Drv
+end Fc.Drv.C20
+
+def Fc.Drv.handleC20 := Fc.Drv.C20.handleC20
